@@ -1,7 +1,9 @@
 use crate::engine::Property;
 
+pub mod c01;
+pub mod c02;
 pub mod c08;
 
 pub fn all() -> Vec<Property> {
-    vec![c08::property()]
+    vec![c01::property(), c02::property(), c08::property()]
 }
